@@ -20,6 +20,9 @@ def dispatch(prop, tier):
     if prop == "C04":
         from . import check_argkey
         return check_argkey.run(prop, tier)
+    if prop == "C11":
+        from . import check_codec
+        return check_codec.run(prop, tier)
     if prop == "C17":
         from . import check_part
         return check_part.run(prop, tier)
